@@ -544,7 +544,11 @@ def c08_run_item(prop, item, seed, tier):
         legal_fn = (lambda s, ts: model.legal(s)) if base.supports(model, "legal") else None
         cap = getattr(model, "EPISODE_CAP", 400)
 
+        counter = {"i": 0}
+
         def one(key, plan):
+            plan = episodes.restyle(plan, counter["i"], None)
+            counter["i"] += 1
             case = {"env": env, "entry": entry, "key": list(key), "actions": []}
             with ctx.guard(env, case, size=10**6):
                 ep, ended = play_to_end(b, key, plan=plan, legal_fn=legal_fn, cap=cap,
